@@ -23,6 +23,8 @@ def run(ctx: RuleContext, p: Program) -> None:
     T.rule_ts_detach(ctx, ts, 'TS-DETACH')
     T.rule_len(ctx, ts, 'LEN')
     T.rule_own_store(ctx, ts, 'OWN-STORE')
+    from . import storeforms
+    storeforms.rule_nav_form(ctx, ts, 'NAV-FORM')
     ctx.not_decided += ['arithmetic of get_prev/get_next/iter/get_index/get_position',
                         'split / merge thresholds', 'agreement with a reference list over operation histories']
     ctx.assumptions += ['_update_block_indexes(k) re-indexes blocks k.. (its loop shape is checked, its argument is not)',
